@@ -251,8 +251,11 @@ func (opts GeneratorOptions) genAny(
 	}
 
 	var typeURL string
-	fopts := field.Options()
-	if proto.HasExtension(fopts, cosmos_proto.E_AcceptsInterface) {
+	var fopts protoreflect.ProtoMessage
+	if field != nil { // nil when the Any is the root message of the generator
+		fopts = field.Options()
+	}
+	if fopts != nil && proto.HasExtension(fopts, cosmos_proto.E_AcceptsInterface) {
 		ai := proto.GetExtension(fopts, cosmos_proto.E_AcceptsInterface).(string)
 		if impl, found := opts.InterfaceHints[ai]; found {
 			typeURL = fmt.Sprintf("/%s", impl)
